@@ -323,7 +323,7 @@ def bounded_no_panic(ctx, fn):
     try:
         if mod == 'digit_string':
             r1 = dsvm.explore(ctx, dsvm.OPS, 3 if ctx.tier == 'thorough' else 2, 'full')
-            r2 = dsvm.explore(ctx, dsvm.OPS_SMALL, 5 if ctx.tier == 'thorough' else 4, 'small')
+            r2 = dsvm.explore(ctx, dsvm.OPS_SMALL if ctx.tier == 'thorough' else dsvm.OPS_QUICK, 5 if ctx.tier == 'thorough' else 4, 'small')
             if r1[0] != 'ok' or r2[0] != 'ok':
                 return False, False, 'builder not interpretable'
             recs = r1[1] + r2[1]
